@@ -89,7 +89,8 @@ func sortedStrict[T comparable](c *core.Ctx, tname string, gen func(*core.Rand) 
 		}
 		return out
 	}
-	check := func(op string) bool {
+	var check func(op string) bool
+	check = func(op string) bool {
 		var got []T
 		if p, pv := core.Catch(func() { got = read() }); p {
 			fail(op+":panic-in-observation", fmt.Sprintf("reading back after %s panicked: %v", op, pv))
@@ -154,7 +155,21 @@ func sortedStrict[T comparable](c *core.Ctx, tname string, gen func(*core.Rand) 
 	nops := r.Range(1, 100)
 	var hh uint64 = core.Mix(core.HashString(tname), core.HashString(fmt.Sprint(snap)))
 	nontrivial := false
-	for step := 0; step < nops; step++ {
+	// observation cadence: a third of the histories re-read the contents only
+	// every 2..6 calls (return values are still judged on every call)
+	obsEvery := 1
+	if r.Chance(1, 3) {
+		obsEvery = r.Range(2, 6)
+	}
+	fullCheck := check
+	step := 0
+	check = func(op string) bool {
+		if step%obsEvery == obsEvery-1 || step == nops-1 {
+			return fullCheck(op)
+		}
+		return true
+	}
+	for step = 0; step < nops; step++ {
 		switch r.Pick(30, 12, 8, 8, 4, 10, 10, 4) {
 		case 0: // Add
 			v := gen(r)
@@ -289,6 +304,9 @@ func sortedStrict[T comparable](c *core.Ctx, tname string, gen func(*core.Rand) 
 		}
 		hh = core.Mix(hh, core.HashString(hist[len(hist)-1]))
 		c.Count("calls", 1)
+	}
+	if !fullCheck("final") {
+		return
 	}
 	if nontrivial {
 		c.NonTrivial(hh)
